@@ -164,14 +164,6 @@ class Classifier:
         V_, X = influence(fn, node)
         sub = [n for x in X for n in ast.walk(x)]
         inferred = self.iv(node)
-        # --- star-unpacked parameter annotation (PEP 646 star syntax) evaluated to tuple[Any]
-        for a in fn.args.args + fn.args.kwonlyargs + fn.args.posonlyargs:
-            if a.arg in V_ and a.annotation is not None and any(isinstance(n, ast.Starred) for n in ast.walk(a.annotation)):
-                return "C01-star-annotation-tuple-any"
-        # --- #3: negative index on a sequence with an unpacked member
-        for s in sub:
-            if isinstance(s, ast.Subscript) and _neg_const(s.slice) and self.has_many_member(self.iv(s.value)):
-                return "C01-neg-index-unpacked-member"
         # --- tuple + tuple drops the receiver's element type
         for s in sub:
             if isinstance(s, ast.BinOp) and isinstance(s.op, ast.Add):
@@ -214,15 +206,6 @@ class Classifier:
         for t in flat:
             if (_names(t) & V_ or any(t is x for x in sub)) and always_true(t):
                 return "C01-type-always-true-subclass-bool"
-        # --- mutation of a local container inside try / with is lost after the block
-        for t in ast.walk(fn):
-            if isinstance(t, (ast.Try, ast.With)) and node.lineno > t.lineno:
-                for st in t.body:
-                    for n in ast.walk(st):
-                        if isinstance(n, ast.Call) and isinstance(n.func, ast.Attribute) and n.func.attr in MUT and isinstance(n.func.value, ast.Name) and n.func.value.id in V_:
-                            return "C01-mutation-in-try-lost"
-                        if isinstance(n, ast.Subscript) and isinstance(n.ctx, (ast.Store, ast.Del)) and isinstance(n.value, ast.Name) and n.value.id in V_:
-                            return "C01-mutation-in-try-lost"
         # --- == / != / in / not in narrowing ignores cross-type numeric equality
         if type(obj) in (bool, int, float):
             for c in ast.walk(fn):
@@ -272,34 +255,6 @@ class Classifier:
         for s_ in sub:
             if isinstance(s_, ast.Call) and isinstance(s_.func, ast.Name) and s_.func.id == "sum" and self.only_literals(self.iv(s_)):
                 return "C01-sum-literal-typevar"
-        # --- 10a: loop else analysed from the pre-loop state
-        for loop in ast.walk(fn):
-            if isinstance(loop, (ast.For, ast.While)) and loop.orelse and node.lineno >= loop.orelse[0].lineno:
-                stored = set()
-                for st in loop.body:
-                    for n in ast.walk(st):
-                        if isinstance(n, ast.Name) and isinstance(n.ctx, ast.Store):
-                            stored.add(n.id)
-                        elif isinstance(n, ast.Match):
-                            for case in n.cases:
-                                stored |= _pattern_captures(case.pattern)
-                if isinstance(loop, ast.For):
-                    stored |= _target_names(loop.target)
-                if stored & V_:
-                    return "C01-loop-else-prestate"
-        # --- 10b: break/continue of an inner loop inside try / with
-        for t in ast.walk(fn):
-            if isinstance(t, (ast.Try, ast.With)) and node.lineno > t.lineno:
-                has_break_loop = False
-                stored = set()
-                for st in t.body:
-                    for n in ast.walk(st):
-                        if isinstance(n, (ast.For, ast.While)) and any(isinstance(b, (ast.Break, ast.Continue)) for b in ast.walk(n)):
-                            has_break_loop = True
-                        if isinstance(n, ast.Name) and isinstance(n.ctx, ast.Store):
-                            stored.add(n.id)
-                if has_break_loop and (stored & V_):
-                    return "C01-break-in-try-loses-defs"
         # --- constraints carried by the members of a union value are inverted jointly:
         #     x = <IfExp / BoolOp whose branches are conditions on v>; ... if x: / if not x: ...
         COND = (ast.Compare, ast.BoolOp)
